@@ -197,7 +197,9 @@ fn run_cases(rep: &mut Report, drv: &mut Option<Driver>, r: &Runner, f: &Callabl
                 &key,
                 input_json(r.name, &c.args, &got, &want),
             );
-        } else if rep.samples.len() < 8 && ci % 17 == 3 {
+        } else if ci == 5
+            && ["StringChars.slice", "StringBytes.get", "StringLines.slice", "f64.round", "Prefix.max_addr", "StringBuf.as_string", "String.splitn", "i64.to_string"].contains(&r.name)
+        {
             rep.sample(json!({"builtin": r.name, "args": c.args.iter().map(|a| a.show()).collect::<Vec<_>>(), "result": got, "class": c.class}));
         }
         let (w, s) = lean_requests(r.name, &c.args);
